@@ -142,20 +142,33 @@ func (ctx *Context) TransactionRATWrite(exe Execution, sequenceID int32) {
 
 func (ctx *Context) RATCommit() {
 	ctx.VerifProbe(VerifProbeCommit)
-	for register, tu := range ctx.transactionRAT.Values() {
-		ctx.committedRAT.Write(register, tu.value)
+	ctx.ratResolve(func(transactionUnit) bool { return true })
+}
+
+// ratResolve commits, per register, the youngest (greatest sequence ID)
+// uncommitted write that satisfies keep, and drops the rest.
+func (ctx *Context) ratResolve(keep func(transactionUnit) bool) {
+	for _, register := range ctx.transactionRAT.Keys() {
+		found := false
+		var best transactionUnit
+		// Once older writes have been overwritten in the ring, only the arrival
+		// order is left: the most recent write wins
+		overflowed := ctx.transactionRAT.Overflowed(register)
+		for _, tu := range ctx.transactionRAT.Entries(register) {
+			if keep(tu) && (!found || (!overflowed && tu.sequenceID > best.sequenceID)) {
+				best, found = tu, true
+			}
+		}
+		if found {
+			ctx.committedRAT.Write(register, best.value)
+		}
 	}
 	ctx.transactionRAT = comp.NewRAT[RegisterType, transactionUnit](ratLength)
 }
 
 func (ctx *Context) RATRollback(sequenceID int32) {
 	ctx.VerifProbe(VerifProbeRollback)
-	for register, tu := range ctx.transactionRAT.FindValues(func(u transactionUnit) bool {
-		return u.sequenceID < sequenceID
-	}) {
-		ctx.committedRAT.Write(register, tu.value)
-	}
-	ctx.transactionRAT = comp.NewRAT[RegisterType, transactionUnit](ratLength)
+	ctx.ratResolve(func(u transactionUnit) bool { return u.sequenceID < sequenceID })
 }
 
 func (ctx *Context) RATFlush() {
